@@ -3,13 +3,25 @@
 (* timeout, then SpawnBase.read_nonblocking = one os.read), against a pipe /  *)
 (* pty / socket descriptor whose peer writes and closes at any moment.        *)
 (* Same contract and same replay machinery as PtyRead.                        *)
+(* The peer of a TCP socket may also send urgent (out-of-band) data: an       *)
+(* exceptional condition is then pending on the descriptor and nothing is     *)
+(* readable - the one way a peer can wake a waiting select()/poll() without   *)
+(* data.  The code as written waits for readability only (select() with an    *)
+(* empty exceptional set), so the condition changes nothing.                  *)
+(* [fdspawn(use_poll=True) registers POLLPRI: there the real code goes on to  *)
+(* os.read() and blocks - a defect of the unchanged tree; the harness replays *)
+(* behaviours with PeerUrgent on the select() flavour only.]                  *)
 EXTENDS Naturals, Integers, Sequences, FiniteSets, TLC
 
-CONSTANTS MaxUnits, MaxWrite, Sizes, Tmos, MaxCalls
+CONSTANTS MaxUnits, MaxWrite, Sizes, Tmos, MaxCalls,
+          Urgent,        \* TRUE: the peer may send urgent data once
+          WakeOnUrgent   \* FALSE: the code as written; TRUE (model sensitivity only): the wait also returns on an
+                         \* exceptional condition and "descriptor not in the readable set" is reported as TIMEOUT
 
-VARIABLES written, lo, peerOpen, pc, size, tmo, waited, flagEof, ret, delivered, ncalls, now, started
+VARIABLES written, lo, peerOpen, pc, size, tmo, waited, flagEof, ret, delivered, ncalls, now, started,
+          urgent         \* an urgent byte is pending at the reader's end (nobody reads it: it stays pending)
 
-vars == <<written, lo, peerOpen, pc, size, tmo, waited, flagEof, ret, delivered, ncalls, now, started>>
+vars == <<written, lo, peerOpen, pc, size, tmo, waited, flagEof, ret, delivered, ncalls, now, started, urgent>>
 
 NoneT == -1
 Avail    == written - lo
@@ -19,37 +31,42 @@ Min(a, b) == IF a <= b THEN a ELSE b
 Init == /\ written = 0 /\ lo = 0 /\ peerOpen = TRUE
         /\ pc = "idle" /\ size = 1 /\ tmo = 0 /\ waited = FALSE /\ flagEof = FALSE
         /\ ret = [kind |-> "none", n |-> 0] /\ delivered = 0 /\ ncalls = 0 /\ now = 0 /\ started = 0
+        /\ urgent = FALSE
 
 PeerWrite(n) == /\ peerOpen /\ written + n <= MaxUnits /\ written' = written + n
-                /\ UNCHANGED <<lo, peerOpen, pc, size, tmo, waited, flagEof, ret, delivered, ncalls, now, started>>
+                /\ UNCHANGED <<lo, peerOpen, pc, size, tmo, waited, flagEof, ret, delivered, ncalls, now, started, urgent>>
 PeerClose    == /\ peerOpen /\ peerOpen' = FALSE
-                /\ UNCHANGED <<written, lo, pc, size, tmo, waited, flagEof, ret, delivered, ncalls, now, started>>
+                /\ UNCHANGED <<written, lo, pc, size, tmo, waited, flagEof, ret, delivered, ncalls, now, started, urgent>>
+\* send(b'!', MSG_OOB) on a TCP connection: select() reports the descriptor in its exceptional set, poll() POLLPRI
+PeerUrgent   == /\ Urgent /\ peerOpen /\ ~urgent /\ urgent' = TRUE
+                /\ UNCHANGED <<written, lo, peerOpen, pc, size, tmo, waited, flagEof, ret, delivered, ncalls, now, started>>
 
 CallStart(sz, t) ==
   /\ pc = "idle" /\ ncalls < MaxCalls
   /\ pc' = "select" /\ size' = sz /\ tmo' = t /\ waited' = FALSE /\ ncalls' = ncalls + 1 /\ started' = now
   /\ ret' = [kind |-> "none", n |-> 0]
-  /\ UNCHANGED <<written, lo, peerOpen, flagEof, delivered, now>>
+  /\ UNCHANGED <<written, lo, peerOpen, flagEof, delivered, now, urgent>>
 
 Return(kind, n) == pc' = "idle" /\ ret' = [kind |-> kind, n |-> n] /\ delivered' = delivered + n
 
 Select ==      \* select/poll([fd], timeout); TIMEOUT if the descriptor is not reported
   /\ pc = "select"
   /\ IF Readable THEN pc' = "read" /\ UNCHANGED <<ret, delivered, now, waited>>
+     ELSE IF WakeOnUrgent /\ urgent THEN Return("TIMEOUT", 0) /\ UNCHANGED <<now, waited>>
      ELSE IF tmo = NoneT THEN FALSE
      ELSE IF tmo > 0 /\ ~waited THEN waited' = TRUE /\ now' = now + tmo /\ UNCHANGED <<pc, ret, delivered>>
      ELSE Return("TIMEOUT", 0) /\ UNCHANGED <<now, waited>>
-  /\ UNCHANGED <<written, lo, peerOpen, size, tmo, flagEof, ncalls, started>>
+  /\ UNCHANGED <<written, lo, peerOpen, size, tmo, flagEof, ncalls, started, urgent>>
 
 Read(n) ==     \* os.read(fd, size): data, or '' / EIO at the end of the stream
   /\ pc = "read"
   /\ IF Avail > 0
      THEN /\ n \in 1..Min(Avail, size) /\ lo' = lo + n /\ Return("data", n) /\ UNCHANGED flagEof
      ELSE /\ n = 0 /\ flagEof' = TRUE /\ Return("EOF", 0) /\ UNCHANGED lo
-  /\ UNCHANGED <<written, peerOpen, size, tmo, waited, ncalls, now, started>>
+  /\ UNCHANGED <<written, peerOpen, size, tmo, waited, ncalls, now, started, urgent>>
 
 Next == \/ \E n \in 1..MaxWrite : PeerWrite(n)
-        \/ PeerClose
+        \/ PeerClose \/ PeerUrgent
         \/ \E sz \in Sizes, t \in Tmos : CallStart(sz, t)
         \/ Select \/ \E n \in 0..MaxUnits : Read(n)
 
